@@ -1,5 +1,6 @@
 import Clikit.Lemmas.Dispatcher
 import Clikit.Lemmas.DispatcherOnce
+import Clikit.Model.ConfigDispatcher
 /-!
 # C12 - listeners run by priority then registration order until propagation stops
 
@@ -621,5 +622,163 @@ example : ∃ s outs, run init [.add 0 la 0, .dispatchN 0 0] = .ok (s, outs) ∧
 violates `htouch` - it is modelled on its own (`dispatch_budget_spec`) -/
 example : ¬ ∀ s, (budgetEvent 1).isStopped ((budgetEvent 1).touch s) = (budgetEvent 1).isStopped s :=
   fun h => absurd (h (0, false)) (by decide)
+
+/-! ## Registration through the configuration (`Model/ConfigDispatcher.lean`)
+
+`ApplicationConfig.set_event_dispatcher` / `add_event_listener` / `.dispatcher`: the caller's dispatcher object, the one
+the configuration would create itself, and which of them the configuration refers to. -/
+section Config
+
+theorem run_cons' (s : State) (op : Op) (ops : List Op) :
+    run s (op :: ops) =
+      match step s op with
+      | .error x => .error x
+      | .ok (s1, o) =>
+        match run s1 ops with
+        | .error x => .error x
+        | .ok (s2, os) => .ok (s2, o :: os) := by
+  simp only [run, bind, Except.bind, pure, Except.pure]
+  cases step s op with
+  | error x => rfl
+  | ok r =>
+    obtain ⟨s1, o⟩ := r
+    simp only
+    cases run s1 ops with
+    | error x => rfl
+    | ok r2 => rfl
+
+theorem step_add' (s : State) (e : Nat) (l : Listener) (p : Int) :
+    step s (.add e l p) = match addListener s e l p with
+      | .ok s' => .ok (s', .unit)
+      | .error x => .error x := by
+  simp only [step, bind, Except.bind, pure, Except.pure]
+  cases addListener s e l p <;> rfl
+
+/-- the configuration refers to the caller's dispatcher: every operation - through the configuration or on the
+object itself - acts on that one dispatcher -/
+theorem crun_caller (ops : List COp) : ∀ (c : CSt), c.cfg = .caller →
+    crun c ops = match run c.own (ops.flatMap flat) with
+      | .ok (s, outs) => .ok ({ c with own := s }, outs)
+      | .error x => .error x := by
+  induction ops with
+  | nil => intro c _; simp [crun, run]
+  | cons op ops ih =>
+    intro c h
+    obtain ⟨own, made, cfg⟩ := c
+    simp only at h
+    subst h
+    cases op with
+    | set =>
+      simp only [crun, cstep, List.flatMap_cons, flat, List.nil_append]
+      rw [ih _ rfl]
+      cases run own (ops.flatMap flat) with
+      | error x => rfl
+      | ok r => rfl
+    | cfgAdd e l p =>
+      simp only [crun, cstep, List.flatMap_cons, flat, List.cons_append, List.nil_append, run_cons', step_add']
+      cases addListener own e l p with
+      | error x => rfl
+      | ok s =>
+        simp only
+        rw [ih _ rfl]
+        cases run s (ops.flatMap flat) with
+        | error x => rfl
+        | ok r => rfl
+    | onOwn o =>
+      simp only [crun, cstep, List.flatMap_cons, flat, List.cons_append, List.nil_append, run_cons']
+      cases step own o with
+      | error x => rfl
+      | ok r =>
+        obtain ⟨s, out⟩ := r
+        simp only
+        rw [ih _ rfl]
+        cases run s (ops.flatMap flat) with
+        | error x => rfl
+        | ok r => rfl
+    | onCfg o =>
+      simp only [crun, cstep, List.flatMap_cons, flat, List.cons_append, List.nil_append, run_cons']
+      cases step own o with
+      | error x => rfl
+      | ok r =>
+        obtain ⟨s, out⟩ := r
+        simp only
+        rw [ih _ rfl]
+        cases run s (ops.flatMap flat) with
+        | error x => rfl
+        | ok r => rfl
+
+
+/-- **A dispatcher handed to the configuration stays THE dispatcher**: the caller registers any listeners `pre`
+(none, one, many) on a dispatcher of its own, hands it over with `set_event_dispatcher`, and goes on - registering
+through `config.add_event_listener` or on the object, dispatching / querying on the object or on `config.dispatcher`,
+in any interleaving: outputs and final registrations are those of the same history on ONE dispatcher; the
+configuration never creates another one.  No hypothesis on the number of listeners at hand-over. -/
+theorem config_handed_over (pre : List Op) : ∀ (own made : State) (ops : List COp),
+    crun ⟨own, made, .unset⟩ (pre.map .onOwn ++ .set :: ops) =
+      match run own (pre ++ ops.flatMap flat) with
+      | .ok (s, outs) => .ok (⟨s, made, .caller⟩, outs)
+      | .error x => .error x := by
+  induction pre with
+  | nil =>
+    intro own made ops
+    simp only [List.map_nil, List.nil_append, crun, cstep]
+    rw [crun_caller ops _ rfl]
+    cases run own (ops.flatMap flat) with
+    | error x => rfl
+    | ok r => rfl
+  | cons o pre ih =>
+    intro own made ops
+    simp only [List.map_cons, List.cons_append, crun, cstep, run_cons']
+    cases step own o with
+    | error x => rfl
+    | ok r =>
+      obtain ⟨s, out⟩ := r
+      simp only
+      rw [ih s made ops]
+      cases run s (pre ++ ops.flatMap flat) with
+      | error x => rfl
+      | ok r => rfl
+
+/-- ... hence (with `no_error`, `run_refines_spec`) such a history raises nothing and every dispatch on either
+object calls exactly the listeners registered so far - through the configuration or directly - in the demanded order -/
+theorem config_handed_over_spec (pre : List Op) (ops : List COp) :
+    ∃ s outs, crun CSt.init (pre.map .onOwn ++ .set :: ops) = .ok (⟨s, Dispatcher.init, .caller⟩, outs) ∧
+      Inv s (logOf (pre ++ ops.flatMap flat)) ∧ AgreesAll [] (pre ++ ops.flatMap flat) outs := by
+  obtain ⟨s, outs, h1, h2, h3⟩ := run_refines_spec (pre ++ ops.flatMap flat)
+  refine ⟨s, outs, ?_, h2, h3⟩
+  have := config_handed_over pre Dispatcher.init Dispatcher.init ops
+  rw [h1] at this
+  exact this
+
+/-- a configuration that was given no dispatcher creates one at the first `add_event_listener` and keeps it -/
+theorem config_lazy_first (e : Nat) (l : Listener) (p : Int) (c : CSt) (h : c.cfg = .unset) :
+    ∃ s, addListener Dispatcher.init e l p = .ok s ∧ cstep c (.cfgAdd e l p) = .ok ({ c with made := s, cfg := .made }, [.unit]) := by
+  obtain ⟨s, outs, h1, _⟩ := no_error [.add e l p]
+  simp only [run_cons', step_add'] at h1
+  cases ha : addListener Dispatcher.init e l p with
+  | error x => simp [ha] at h1
+  | ok s' =>
+    refine ⟨s', rfl, ?_⟩
+    obtain ⟨own, made, cfg⟩ := c
+    simp only at h
+    subst h
+    simp only [cstep, ha]
+
+/-- an EMPTY dispatcher handed over, the first listener registered through the configuration, a second one on the
+object: a dispatch on the caller's object calls both, the higher priority first -/
+example : ∃ c outs, crun CSt.init [.set, .cfgAdd 0 la 0, .onOwn (.add 0 lc 1), .onOwn (.dispatch 0 false)] = .ok (c, outs) ∧
+    outs[2]? = some (.called [lc, la] false) := by
+  obtain ⟨s, outs, h1, h2⟩ := dispatch_spec [.add 0 la 0, .add 0 lc 1] 0 false []
+  have e : callSeq (logOf [.add 0 la 0, .add 0 lc 1]) 0 false = [⟨0, 1, lc⟩, ⟨0, 0, la⟩] := by decide
+  rw [e] at h2
+  have c := config_handed_over [] Dispatcher.init Dispatcher.init
+    [.cfgAdd 0 la 0, .onOwn (.add 0 lc 1), .onOwn (.dispatch 0 false)]
+  have e2 : ([] : List Op) ++ [COp.cfgAdd 0 la 0, .onOwn (.add 0 lc 1), .onOwn (.dispatch 0 false)].flatMap flat =
+      [.add 0 la 0, .add 0 lc 1] ++ .dispatch 0 false :: [] := rfl
+  rw [e2, h1] at c
+  exact ⟨_, outs, c, by simpa [la, lc] using h2⟩
+
+
+end Config
 
 end Clikit.Props.C12
